@@ -946,9 +946,13 @@ class TreeTransform(Generic[TreeFnT]):
       # record, only their own output keys remain afterwards.
       if type(fn) in (tree_fns.TreeFn, tree_fns.Select):  # pylint: disable=unidiomatic-typecheck
         result = set()
-      result.update(itertools.chain(non_dict_keys, *dict_keys))
-    # SKIP discards an output, it is not a key of the record.
-    result.discard(tree.Key.SKIP)
+      # SKIP discards an output, it is not a key of the record (a plain str key
+      # spelled 'SKIP' is: Reserved('SKIP') == 'SKIP', so test the type too).
+      result.update(
+          key
+          for key in itertools.chain(non_dict_keys, *dict_keys)
+          if not (isinstance(key, tree.Reserved) and key == tree.Key.SKIP)
+      )
     return result
 
   @property
@@ -967,16 +971,23 @@ class TreeTransform(Generic[TreeFnT]):
   ):
     """Checks the assign keys are valid."""
     non_dict_keys, dict_keys = mit.partition(_is_dict, assign_keys)
-    new_keys = set(itertools.chain(non_dict_keys, *dict_keys))
     if exisiting_keys is None:
       exisiting_keys = self.output_keys
-    if conflicting_keys := new_keys.intersection(exisiting_keys):
+    # Key.SELF / Key.SKIP are str subclasses (Reserved('SELF') == 'SELF'): a
+    # plain str key spelled 'SELF' or 'SKIP' is an ordinary key of the record,
+    # so the keys are compared together with their being Reserved or not.
+    new_keys = {
+        (isinstance(key, tree.Reserved), key)
+        for key in itertools.chain(non_dict_keys, *dict_keys)
+    }
+    old_keys = {(isinstance(key, tree.Reserved), key) for key in exisiting_keys}
+    if conflicting_keys := {key for _, key in new_keys & old_keys}:
       raise KeyError(
           f'Duplicate output_keys: {conflicting_keys} from assignment of'
           f' {assign_keys}'
       )
-    all_keys = exisiting_keys | new_keys
-    if tree.Key.SELF in all_keys and len(all_keys) > 1:
+    all_keys = old_keys | new_keys
+    if (True, tree.Key.SELF) in all_keys and len(all_keys) > 1:
       raise KeyError(
           'Cannot mix SELF with other keys as output keys, got'
           f' {assign_keys=} all output keys so far: {exisiting_keys}.'
